@@ -206,6 +206,10 @@ func (vc *VC) methodRecv(s *State, f *ast.SelectorExpr, sel *types.Selection, m 
 			vc.nonNil(s, cur, vc.siteName("field", f), exprStr(f), f.Pos())
 			if last && wantPtr {
 				if _, isP := fld.Type().Underlying().(*types.Pointer); !isP {
+					if sp, ok := vc.prog.Specs[funcKey(m)]; ok && sp.Trusted {
+						// trusted method on an embedded struct value: the receiver is an opaque interior reference
+						return vc.allocRef(s, "interior", nil)
+					}
 					vc.unsupported(f, "pointer-receiver method on embedded struct value (interior pointer)")
 				}
 			}
@@ -220,6 +224,9 @@ func (vc *VC) methodRecv(s *State, f *ast.SelectorExpr, sel *types.Selection, m 
 	}
 	_, havePtr := ct.Underlying().(*types.Pointer)
 	if wantPtr && !havePtr {
+		if sp, ok := vc.prog.Specs[funcKey(m)]; ok && sp.Trusted {
+			return vc.allocRef(s, "interior", nil)
+		}
 		vc.unsupported(f, "pointer-receiver method on embedded struct value")
 	}
 	if !wantPtr && havePtr {
